@@ -72,17 +72,18 @@ def referenceActivatedInstance (flowId : String) (evArgs : List (String × Val))
     let mut matching := true
     let mut idx := 0
     for p in cfg.params do
-      let val ← match lookupArg p.name x.arguments with
+      let key := flowArgKey p.name
+      let val ← match lookupArg key x.arguments with
         | some v => pure v
-        | none => pyRaise "KeyError" p.name
+        | none => pyRaise "KeyError" key
       let pos := s!"${idx}"
-      let mut matched := match lookupArg p.name evArgs with
+      let mut matched := match lookupArg key evArgs with
         | some v => pyEq val v
         | none => false
       matched := matched || (match lookupArg pos evArgs with
         | some v => pyEq val v
         | none => false)
-      if (lookupArg p.name evArgs).isNone && (lookupArg pos evArgs).isNone then
+      if (lookupArg key evArgs).isNone && (lookupArg pos evArgs).isNone then
         match p.default with
         | some d => matched := matched || pyEq val (← evalEmpty d)
         | none => pure ()
@@ -263,7 +264,7 @@ def startFlow (f : FUid) (evArgs : List (String × Val)) : M Unit := do
     for (argName, _) in x.arguments do
       lastIdx := idx
       match lookupArg s!"${idx}" evArgs with
-      | some v => setCtxVar f argName v
+      | some v => setCtxVar f (flowParamName argName) v
       | none => break
       idx := idx + 1
     if (lookupArg s!"${lastIdx + 1}" evArgs).isSome then
@@ -363,7 +364,18 @@ def resolveActionConflicts (fuel : Nat) (actionable : List Key) : M (List Key) :
         if k = picked then continue
         let cspec ← specOf k
         let competing ← getEvent k.1 cspec false
-        if eventIsEqual winning competing then
+        -- `_is_same_event_for_conflict`: equal events of two DIFFERENT action instances only agree when they start the action
+        let sameEvent ← (do
+          if !eventIsEqual winning competing then return false
+          match winning.kind, winning.actionUid, competing.kind, competing.actionUid with
+          | .action, some wu, .action, some cu =>
+            if wu ≠ cu then
+              match ← getAction? wu with
+              | some a => return winning.name = "Start" ++ a.name
+              | none => return false
+            else return true
+          | _, _, _, _ => return true : M Bool)
+        if sameEvent then
           match winning.kind, winning.actionUid, competing.kind, competing.actionUid with
           | .action, some wu, .action, some cu =>
             if cu ≠ wu then
